@@ -89,7 +89,12 @@ func value(r *rand.Rand, depth int, ws bool) string {
 	case 3, 4:
 		return number(r, true)
 	case 5:
-		b, _ := json.Marshal(str(r))
+		t := str(r)
+		if r.IntN(3) == 0 {
+			// a string whose text is itself a JSON document
+			t = []string{"42", "true", "null", `{"a":1}`, `"quoted"`, " 7 ", "[1,2]", "-0.5e3"}[r.IntN(8)]
+		}
+		b, _ := json.Marshal(t)
 		return string(b)
 	case 6, 7:
 		n := r.IntN(4)
